@@ -30,10 +30,16 @@ def gen_cases(tier, seed):
                     # one history in five runs in a zone with daylight saving, its clock mapped onto instants around a transition, with
                     # mixed naive / aware representations ("modified times ... compared as instants")
                     "tz": r.choice(["America/New_York", "Europe/London", "Australia/Lord_Howe", "America/St_Johns", "Europe/Berlin"]) if r.random() < 0.2 else None})
+    for i in range(n // 10):
+        out.append({"seed": env.seed_for(seed, ID, tier, "file", i), "mode": "file"})  # histories over the bundled file stores (incl. symlinked source paths)
     return out
 
 
 def run_case(desc):
+    if desc.get("mode") == "file":
+        from vmon.checks import c05
+
+        return c05.run_file(desc, prop="C03")
     return histcheck.run_case(desc, "C03", ("C03",), "partial_rebuilds")
 
 
